@@ -1139,6 +1139,17 @@ class TwoDSpectrumBase(DataSaveable):
                                     " 'types'. Tag would be ignored and"+
                                     " information lost")
                 self.set_data_flag(dtype)
+                if self.storage_resolution == "pathways":
+                    # Untagged data of a given type are accumulated in 
+                    # a slot of their own (tag None) next to the tagged 
+                    # pathways. Reading the type returns the sum of all
+                    # pathways, which must not be stored again.
+                    piece = self._d__data.setdefault(dtype, {})
+                    if None in piece:
+                        piece[None] = piece[None] + data
+                    else:
+                        piece[None] = data
+                    return
                 try:
                     odata = self.d__data
                 except:
